@@ -10,11 +10,16 @@ from fractions import Fraction as Fr
 import vlib
 
 PROOF_MODULES = []     # coq/Assume/*.v are compiled directly by coqc (not yet in _CoqProject)
-OBLIGATIONS = ["C34/P_assumptions_sound.v", "C34/P_zero_sound.v", "C34/P_sign_queries_sound.v",
-               "C34/P_positive_sound.v", "C34/P_integer_sound.v", "C34/P_real_sound.v", "C34/P_complex_sound.v",
-               "C34/P_rational_finite_sound.v", "C34/P_refuted.v", "C34/P_nonvacuous.v"]
+OBLIGATIONS = ["C34/P_assumptions_sound.v", "C34/P_zero_sound.v", "C34/P_nonzero_sound.v", "C34/P_negative_sound.v",
+               "C34/P_nonnegative_sound_guarded.v", "C34/P_nonpositive_sound_guarded.v", "C34/P_positive_sound_guarded.v",
+               "C34/P_integer_sound.v", "C34/P_real_sound_guarded.v", "C34/P_complex_true_sound_guarded.v",
+               "C34/P_complex_false_sound.v", "C34/P_finite_sound.v", "C34/P_even_sound.v", "C34/P_odd_sound.v",
+               "C34/P_refuted_nonnegative_nan_zoo.v", "C34/P_refuted_positive_complex_coefficient.v",
+               "C34/P_refuted_real_false_mul.v", "C34/P_refuted_real_false_add.v", "C34/P_refuted_real_pole.v",
+               "C34/P_nonvacuous.v"]
 ASSUME_SRC = ["Assume/Tribool.v", "Assume/AssumeModel.v", "Assume/RefineModel.v", "Assume/AssumeSem.v",
-              "Assume/AssumeProofs.v", "Assume/RefineProofs.v"]
+              "Assume/AssumeProofs.v", "Assume/AssumeProofs2.v", "Assume/AssumeProofs3.v", "Assume/C34Theorems.v",
+              "Assume/RefineProofs.v"]
 
 QNAMES = ["zero", "nonzero", "positive", "negative", "nonnegative", "nonpositive", "integer", "real", "complex",
           "rational", "irrational", "finite", "infinite", "algebraic", "transcendental", "even", "odd",
@@ -283,9 +288,37 @@ def shape_of(dump):
     return d[1:].split()[0].rstrip(")")
 
 
-def classify(qname, claim, dump):
-    """known-finding class of an unsound definite answer, from the query, the claim and the top node"""
-    return "C34/%s=%s:%s" % (qname, claim, shape_of(dump))
+def value_class(vdump):
+    d = vdump.strip()
+    if d.startswith("(Inf 0"):
+        return "zoo"
+    if d.startswith("(Inf"):
+        return "inf"
+    if d.startswith("(NaN"):
+        return "nan"
+    if d.startswith("(I 0)"):
+        return "zero"
+    if d.startswith("(I ") or d.startswith("(Q "):
+        return "real"
+    if d.startswith("(C "):
+        return "nonreal"
+    if d.startswith("(D "):
+        return "double"
+    return "numeric"
+
+
+def classify(qname, claim, dump, vdump):
+    """known-finding class of an unsound definite answer: query, claim, top node of the expression and the
+    kind of value that contradicts the claim"""
+    return "C34/%s=%s:%s@%s" % (qname, claim, shape_of(dump), value_class(vdump))
+
+
+def outside_domain(dump):
+    """infinities / nan inside a composite expression: arithmetic on them is outside the semantic domain"""
+    d = dump.strip()
+    if d.startswith("(Inf") or d.startswith("(NaN"):
+        return False
+    return "(Inf" in d or "(NaN" in d or "(D 7ff" in d or "(D fff" in d
 
 
 def build(ctx):
@@ -316,7 +349,7 @@ def explore(ctx, drv, model, cases, stats, search=False):
     for case, il, ml in zip(cases, impl, mod):
         f = il.split("\t")
         if len(f) < 4 or il.startswith("SETUP") or "CRASH" in il or "HANG" in il or il.startswith("NOOUTPUT"):
-            if "CRASH" in il or "HANG" in il:
+            if ("CRASH" in il or "HANG" in il) and not il.startswith("SETUP"):
                 ctx.violation("C34/crash", "query evaluation ended with %s on %s" % (il[-40:], case), {"family": "assume", "case": case})
             stats["skipped"] += 1
             continue
@@ -351,13 +384,11 @@ def explore(ctx, drv, model, cases, stats, search=False):
                                    "detail": "case %s\ndump %s | %s\nimpl  %s\nmodel %s (differs for %s)" % (
                                        case, f[0], f[1], res, ml, ", ".join(QNAMES[i] for i in bad))})
             stats["mismatches"] += 1
-        if len(f) > 4 and f[4].startswith("#ORACLE:"):
-            for item in f[4][len("#ORACLE:"):].split(" "):
-                if "=" not in item:
-                    continue
-                qn, rest = item.split("=", 1)
-                claim = rest[0]
-                key = classify(qn, claim, f[0])
+        if len(f) > 4 and f[4].startswith("#ORACLE:") and not outside_domain(f[0]):
+            import re as _re
+            for m in _re.finditer(r"(\w+)=([TF])@(\d+):(\([^()]*\))", f[4]):
+                qn, claim, vdump = m.group(1), m.group(2), m.group(4)
+                key = classify(qn, claim, f[0], vdump)
                 ctx.violation(key, "is_%s(e) = %s under the assumptions, but the value at a satisfying valuation does not agree: %s ; case %s" % (
                     qn, claim, f[4], case.replace("\t", " | ")), {"family": "assume", "case": case, "dump": f[0]})
         if not search and len(ctx.cov["samples"]) < 8 and definite and "Sym" in f[0]:
